@@ -11,7 +11,7 @@ ITER_TRAITS = ['core::iter::traits::iterator::Iterator', 'core::iter::traits::do
 
 def struct_name(inst, f):
     p = inst.feats.get(f, {})
-    return p.get('struct_name') or ('E' + ('Iter' if f == 'iter' else 'Names'))
+    return p.get('struct_name') or (inst.enum_name + ('Iter' if f == 'iter' else 'Names'))
 
 def check_instance(inst, F, ctx, extra):
     cr = inst.crate
